@@ -17,9 +17,27 @@ import (
 var redisCounterCmds = map[string]bool{"INCR": true, "DECR": true, "INCRBY": true, "DECRBY": true}
 
 // redisEvents lists, in source order, the Redis commands a body issues: "S:<CMD>" for Send, "D:<CMD>" for Do;
-// functions and methods of the package are followed.
+// functions and methods of the package are followed, and a command name handed to such a helper as a string literal
+// is followed through its parameter.
 func redisEvents(body *ast.BlockStmt, local map[string]*ast.FuncDecl, depth int) []string {
+	return redisEventsEnv(body, local, depth, nil)
+}
+
+func redisEventsEnv(body *ast.BlockStmt, local map[string]*ast.FuncDecl, depth int, env map[string]string) []string {
 	var out []string
+	lit := func(e ast.Expr) (string, bool) {
+		switch x := e.(type) {
+		case *ast.BasicLit:
+			if x.Kind == token.STRING {
+				v, _ := strconv.Unquote(x.Value)
+				return v, true
+			}
+		case *ast.Ident:
+			v, ok := env[x.Name]
+			return v, ok
+		}
+		return "", false
+	}
 	ast.Inspect(body, func(n ast.Node) bool {
 		c, ok := n.(*ast.CallExpr)
 		if !ok {
@@ -27,8 +45,7 @@ func redisEvents(body *ast.BlockStmt, local map[string]*ast.FuncDecl, depth int)
 		}
 		// arguments first (redis.Int64s(conn.Do("EXEC")) is found by the traversal itself)
 		if sel, ok := c.Fun.(*ast.SelectorExpr); ok && (sel.Sel.Name == "Send" || sel.Sel.Name == "Do") && len(c.Args) > 0 {
-			if lit, ok := c.Args[0].(*ast.BasicLit); ok && lit.Kind == token.STRING {
-				cmd, _ := strconv.Unquote(lit.Value)
+			if cmd, ok := lit(c.Args[0]); ok {
 				out = append(out, sel.Sel.Name[:1]+":"+strings.ToUpper(cmd))
 				return true
 			}
@@ -37,7 +54,21 @@ func redisEvents(body *ast.BlockStmt, local map[string]*ast.FuncDecl, depth int)
 		}
 		name := chainName(c)
 		if fd, ok := local[name]; ok && depth < 3 && !strings.Contains(name, ".") {
-			out = append(out, redisEvents(fd.Body, local, depth+1)...)
+			sub := map[string]string{}
+			i := 0
+			if fd.Type.Params != nil {
+				for _, fl := range fd.Type.Params.List {
+					for _, pn := range fl.Names {
+						if i < len(c.Args) {
+							if v, ok := lit(c.Args[i]); ok {
+								sub[pn.Name] = v
+							}
+						}
+						i++
+					}
+				}
+			}
+			out = append(out, redisEventsEnv(fd.Body, local, depth+1, sub)...)
 		}
 		return true
 	})
